@@ -116,7 +116,8 @@ def run_check(tier, seed):
                     run.add_violation("oracle", {"stream": "env_matrix_stdin_none", "what": "success depends on the environment", "described": {"argv": base_cmds[i][0]}, "environment": e, "cwd": cwd,
                                                  "baseline": [brc, berr.decode("utf-8", "replace")[-200:]], "variant": [rc, err.decode("utf-8", "replace")[-200:]]}, True)
                 continue
-            if (rc == 0) != (brc == 0) or (rc == 0 and mask_now(out.decode("utf-8", "replace"), now) != mask_now(bout.decode("utf-8", "replace"), now)):
+            if ((rc == 0) != (brc == 0) or (rc == 0 and mask_now(out.decode("utf-8", "replace"), now) != mask_now(bout.decode("utf-8", "replace"), now))) and \
+                    really_differs(base_cmds[i], base_cmds[i], env_a={"TZ": "UTC", "LANG": "C"}, env_b=e, cwd_b=cwd)[0]:
                 run.add_violation("oracle", {"stream": "env_matrix_stdin_none", "what": "output depends on the environment", "described": {"argv": base_cmds[i][0], "stdin": (c["stdin_text"] or b"").decode("utf-8", "replace")[:1500]},
                                              "environment": e, "cwd": cwd, "baseline_env": {"TZ": "UTC", "LANG": "C", "cwd": "/tmp"},
                                              "baseline": [brc, bout.decode("utf-8", "replace")[:400]], "variant": [rc, out.decode("utf-8", "replace")[:400], err.decode("utf-8", "replace")[-200:]]}, True)
